@@ -8,6 +8,7 @@ CONSTANTS
   EditBudget = 2
   AnnBudget = 2
   EnvKinds = {"unready", "fail", "restart", "dup", "node"}
+  FaultBudget = 0
   MaxPerNode = 4
   AgeCap = 3
   KnownFindings = {}
